@@ -50,6 +50,20 @@ impl GetSigningKeyRequest {
         ensures r.access_key is None, r.session_token is None, r.request_date is None, r.region is None, r.service is None
     { unimplemented!() }
 }
+/// two provider requests whose fields have the same text are the same request (a String is its text: axiom_string_of_bytes)
+pub proof fn lemma_request_ext(r1: GetSigningKeyRequest, r2: GetSigningKeyRequest)
+    requires
+        r1.s_access_key()@ == r2.s_access_key()@, r1.s_region()@ == r2.s_region()@, r1.s_service()@ == r2.s_service()@,
+        r1.s_request_date() == r2.s_request_date(),
+        r1.s_session_token() is Some <==> r2.s_session_token() is Some,
+        r1.s_session_token() is Some ==> r1.s_session_token()->Some_0@ == r2.s_session_token()->Some_0@,
+    ensures r1 == r2
+{
+    axiom_string_of_bytes(r1.s_access_key()); axiom_string_of_bytes(r2.s_access_key());
+    axiom_string_of_bytes(r1.s_region()); axiom_string_of_bytes(r2.s_region());
+    axiom_string_of_bytes(r1.s_service()); axiom_string_of_bytes(r2.s_service());
+    if r1.s_session_token() is Some { axiom_string_of_bytes(r1.s_session_token()->Some_0); axiom_string_of_bytes(r2.s_session_token()->Some_0); }
+}
 impl GetSigningKeyRequestBuilder {
     #[verifier::external_body]
     pub fn access_key(&mut self, v: String) -> (r: &mut Self)
